@@ -42,3 +42,7 @@ Theorem C19_several_streams : forall (m0 : Z) (cfgs : list (Z * list nat)) (sche
        exists s, nth_error (snd ms) j = Some s /\ length (out s) = total (snd c) /\ NoDup (out s)
                  /\ (forall x, In x (out s) <-> fst c <= x < fst c + Z.of_nat (total (snd c))).
 Proof. exact emit_multi_exact. Qed.
+
+Require Import Coq.Strings.String.
+Theorem C19_inc_matched_is_source : inc_matched_src = ["AAdd 1"%string].
+Proof. exact inc_matched_is_one_atomic_add. Qed.
